@@ -226,6 +226,7 @@ inline int harness_main(int argc, char** argv, Registry& reg) {
   std::string header = detail::g_header;
   ::unlink(detail::g_cur_path);
   ::unlink((out + ".fail.choices").c_str());
+  ::unlink((out + ".fail.txt").c_str());
   if (__sanitizer_set_death_callback) __sanitizer_set_death_callback(detail::dump_current);
   signal(SIGABRT, detail::on_abort);
   std::set_terminate([] { detail::dump_current(); fprintf(stderr, "std::terminate called\n"); abort(); });
